@@ -131,3 +131,36 @@ func VerifCalculateExecutionType(s *VerifExecTypeSpec) *VerifExecTypeResult {
 	t := calculateExecutionType(m, base.VerifFromProjection(s.Ret), argTs)
 	return &VerifExecTypeResult{T: t.VerifProject(), Recv: recvT.VerifProject()}
 }
+
+// VerifConditionalReturnSpec describes one call of conditioningMethodReturn: the declared
+// parameter types of the method (in order), its declared return type (a union whose variants
+// are the alternatives) and the evaluated arguments.
+type VerifConditionalReturnSpec struct {
+	Params []*base.VerifT `json:"params"`
+	Ret    *base.VerifT   `json:"ret"`
+	Args   []*base.VerifT `json:"args"`
+}
+
+// VerifConditioningMethodReturn registers a method with the given parameters under a fresh
+// class and reports the alternative conditioningMethodReturn picks.
+func VerifConditioningMethodReturn(s *VerifConditionalReturnSpec) *base.VerifT {
+	verifSeq++
+	class := fmt.Sprintf("VerifCls%d", verifSeq)
+	var dargs []string
+	for i, v := range s.Params {
+		name := fmt.Sprintf("p%d", i)
+		dargs = append(dargs, name)
+		base.SetValueT("Builtin", class, "m", name, base.VerifFromProjection(v), false)
+	}
+	methodT := base.MakeMethod("Builtin", "m", *base.VerifFromProjection(s.Ret), dargs)
+	objT := base.MakeObject(class)
+	objT.SetFrame("Builtin")
+	m := &MethodEvaluator{ctx: context.NewContext("", "", "check"), method: "m", evaluatedObjectT: objT, objectT: objT}
+	var argTs []*base.T
+	for _, a := range s.Args {
+		argTs = append(argTs, base.VerifFromProjection(a))
+	}
+	t := conditioningMethodReturn(m, class, methodT, argTs)
+	base.VerifDeleteClass(class)
+	return t.VerifProject()
+}
